@@ -815,6 +815,8 @@ static char *read_include_filename(Token **rest, Token *tok, bool *is_dquote) {
   // a single string token or a sequence of "<" ... ">".
   if (tok->kind == TK_IDENT) {
     Token *tok2 = preprocess2(copy_line(rest, tok));
+    if (tok2->kind == TK_IDENT)
+      error_tok(tok, "expected a filename");
     return read_include_filename(&tok2, tok2, is_dquote);
   }
 
